@@ -245,12 +245,70 @@ theorem resetDep_crashed_mono (s : St) (t : Name) (h : (resetDep true s t).crash
       · exact h
       · simp at h
 
+/-! ### the repaired per-task step `resetOne` = `resetDep` + the mark re-applied -/
+
+theorem rcd_ign_eta (r : Rcd) (h : r.ign = true) : { r with ign := true } = r := by
+  cases r; simp_all
+
+theorem resetOne_frame (s : St) (t k : Name) (hk : k ≠ t) : (resetOne s t).rcd k = s.rcd k := by
+  unfold resetOne; split
+  · simp [setIgn, hk, resetDep_frame s t k hk]
+  · exact resetDep_frame s t k hk
+
+theorem resetOne_fs (s : St) (t : Name) :
+    (resetOne s t).fs = s.fs ∧ (resetOne s t).defs = s.defs ∧ (resetOne s t).checker = s.checker := by
+  unfold resetOne; split
+  · simpa [setIgn] using resetDep_fs s t
+  · exact resetDep_fs s t
+
+theorem resetOne_crashed (s : St) (t : Name) : (resetOne s t).crashed = (resetDep true s t).crashed := by
+  unfold resetOne; split <;> simp [setIgn]
+
+theorem resetOne_missing (s : St) (t k : Name) (h : (s.defs t).deps.any (depMissing s.fs) = true) :
+    (resetOne s t).rcd k = s.rcd k := by
+  unfold resetOne; split
+  · rename_i hi
+    rw [resetDep_missing s t h]
+    simp only [setIgn]
+    split
+    · rename_i hk; subst hk; exact rcd_ign_eta _ hi
+    · rfl
+  · rw [resetDep_missing s t h]
+
+theorem resetRecOk_ign (c : Checker) (d : TaskDef) (pre r : Rcd) (fs : FS) :
+    resetRecOk c d pre { r with ign := true } fs = resetRecOk c d pre r fs := rfl
+
+theorem lateOk_ign (c : Checker) (d : TaskDef) (r : Rcd) (fs : FS) :
+    lateOk c d { r with ign := true } fs = lateOk c d r fs := rfl
+
+theorem resetOne_present (s : St) (t : Name) (hm : (s.defs t).deps.any (depMissing s.fs) = false)
+    (hc0 : s.crashed = false) (hc1 : (resetOne s t).crashed = false) :
+    resetRecOk s.checker (s.defs t) (s.rcd t) ((resetOne s t).rcd t) s.fs = true ∧
+    lateOk s.checker (s.defs t) ((resetOne s t).rcd t) s.fs = true := by
+  rw [resetOne_crashed] at hc1
+  have := resetDep_present s t hm hc0 hc1
+  unfold resetOne; split
+  · simp only [setIgn, if_true]
+    rw [resetRecOk_ign, lateOk_ign]; exact this
+  · exact this
+
+theorem resetOne_crashed_mono (s : St) (t : Name) (h : (resetOne s t).crashed = false) : s.crashed = false := by
+  rw [resetOne_crashed] at h; exact resetDep_crashed_mono s t h
+
+/-- the repaired `reset-dep` never removes a mark -/
+theorem resetOne_keeps_ign (s : St) (k T : Name) (hi : (s.rcd T).ign = true) : ((resetOne s k).rcd T).ign = true := by
+  by_cases hk : T = k
+  · subst hk
+    unfold resetOne
+    simp [hi, setIgn]
+  · rw [resetOne_frame s k T hk]; exact hi
+
 theorem resetList_crashed_mono (l : List Name) (s : St) (h : (resetList s l).crashed = false) : s.crashed = false := by
   induction l generalizing s with
   | nil => exact h
   | cons a as ih =>
     simp only [resetList, List.foldl_cons] at h ih
-    exact resetDep_crashed_mono s a (ih _ h)
+    exact resetOne_crashed_mono s a (ih _ h)
 
 theorem resetList_frame (l : List Name) (s : St) :
     (∀ k, k ∉ l → (resetList s l).rcd k = s.rcd k) ∧ (resetList s l).fs = s.fs ∧ (resetList s l).defs = s.defs ∧
@@ -259,12 +317,12 @@ theorem resetList_frame (l : List Name) (s : St) :
   | nil => simp [resetList]
   | cons a as ih =>
     simp only [resetList, List.foldl_cons] at ih ⊢
-    obtain ⟨h1, h2, h3, h4⟩ := ih (resetDep true s a)
-    obtain ⟨f1, f2, f3⟩ := resetDep_fs s a
+    obtain ⟨h1, h2, h3, h4⟩ := ih (resetOne s a)
+    obtain ⟨f1, f2, f3⟩ := resetOne_fs s a
     refine ⟨?_, h2.trans f1, h3.trans f2, h4.trans f3⟩
     intro k hk
     have hka : k ≠ a := fun h => hk (h ▸ List.mem_cons_self)
-    rw [h1 k (fun h => hk (List.mem_cons_of_mem _ h)), resetDep_frame s a k hka]
+    rw [h1 k (fun h => hk (List.mem_cons_of_mem _ h)), resetOne_frame s a k hka]
 
 theorem resetRecOk_trans (c : Checker) (d : TaskDef) (r0 r1 r2 : Rcd) (fs : FS)
     (h01 : r1.getValues = r0.getValues ∧ r1.result = r0.result) (h12 : resetRecOk c d r1 r2 fs = true) :
@@ -288,29 +346,29 @@ theorem resetList_present (l : List Name) (s : St) (hc : (resetList s l).crashed
   | nil => cases ht
   | cons a as ih =>
     simp only [resetList, List.foldl_cons] at hc ih ⊢
-    obtain ⟨f1, f2, f3⟩ := resetDep_fs s a
-    have hc1 : (resetDep true s a).crashed = false := resetList_crashed_mono as _ hc
-    have hc0 : s.crashed = false := resetDep_crashed_mono s a hc1
+    obtain ⟨f1, f2, f3⟩ := resetOne_fs s a
+    have hc1 : (resetOne s a).crashed = false := resetList_crashed_mono as _ hc
+    have hc0 : s.crashed = false := resetOne_crashed_mono s a hc1
     by_cases hta : t ∈ as
-    · have hm' : (((resetDep true s a).defs t).deps.any (depMissing (resetDep true s a).fs)) = false := by
+    · have hm' : (((resetOne s a).defs t).deps.any (depMissing (resetOne s a).fs)) = false := by
         rw [f1, f2]; exact hm
-      have := ih (resetDep true s a) hc hta hm'
+      have := ih (resetOne s a) hc hta hm'
       rw [f1, f2, f3] at this
       refine ⟨?_, this.2⟩
-      apply resetRecOk_trans _ _ _ ((resetDep true s a).rcd t) _ _ _ this.1
+      apply resetRecOk_trans _ _ _ ((resetOne s a).rcd t) _ _ _ this.1
       by_cases hat : t = a
       · subst hat
-        exact resetRecOk_vals _ _ _ _ _ (resetDep_present s t hm hc0 hc1).1
-      · rw [resetDep_frame s a t hat]; exact ⟨rfl, rfl⟩
+        exact resetRecOk_vals _ _ _ _ _ (resetOne_present s t hm hc0 hc1).1
+      · rw [resetOne_frame s a t hat]; exact ⟨rfl, rfl⟩
     · have hat : t = a := by
         rcases List.mem_cons.1 ht with h | h
         · exact h
         · exact absurd h hta
       subst hat
-      have hfr := (resetList_frame as (resetDep true s t)).1 t hta
+      have hfr := (resetList_frame as (resetOne s t)).1 t hta
       simp only [resetList] at hfr
       rw [hfr]
-      exact resetDep_present s t hm hc0 hc1
+      exact resetOne_present s t hm hc0 hc1
 
 theorem resetList_missing (l : List Name) (s : St) (t : Name)
     (hm : (s.defs t).deps.any (depMissing s.fs) = true) : (resetList s l).rcd t = s.rcd t := by
@@ -318,10 +376,18 @@ theorem resetList_missing (l : List Name) (s : St) (t : Name)
   | nil => rfl
   | cons a as ih =>
     simp only [resetList, List.foldl_cons] at ih ⊢
-    obtain ⟨f1, f2, _⟩ := resetDep_fs s a
-    rw [ih (resetDep true s a) (by rw [f1, f2]; exact hm)]
+    obtain ⟨f1, f2, _⟩ := resetOne_fs s a
+    rw [ih (resetOne s a) (by rw [f1, f2]; exact hm)]
     by_cases hat : t = a
-    · subst hat; rw [resetDep_missing s t hm]
-    · exact resetDep_frame s a t hat
+    · subst hat; exact resetOne_missing s t t hm
+    · exact resetOne_frame s a t hat
+
+theorem resetList_keeps_ign (l : List Name) (s : St) (T : Name) (hi : (s.rcd T).ign = true) :
+    ((resetList s l).rcd T).ign = true := by
+  induction l generalizing s with
+  | nil => exact hi
+  | cons a as ih =>
+    simp only [resetList, List.foldl_cons] at ih ⊢
+    exact ih _ (resetOne_keeps_ign s a T hi)
 
 end DoitModel.Cmds
